@@ -95,3 +95,51 @@ def enclosing_stmt(node):
 
 def loc(f, node):
   return '%s:%d' % (f.module.relpath, getattr(node, 'lineno', 0))
+
+
+_BUILTIN_ROOTS = {'self', 'np', 'numpy', 'pd', 'pandas', 'sp', 'scipy', 'stats', 'math', 'len', 'abs', 'float', 'int', 'min', 'max', 'sum', 'round', 'range', 'sorted',
+                  'list', 'tuple', 'set', 'dict', 'bool', 'str', 'True', 'False', 'None', 'isinstance', 'zip', 'enumerate', 'copy', 'sm', 'op', 'operator', 'itertools',
+                  'utils', 'semantics', 'common_classes', 'heapdict', 'geoeligibility', 'functools', 'collections', 'heapq', 'dataclasses'}
+
+
+def aliens(expr, vocabulary=(), fields=None):
+  """Root names read by `expr` that are neither in `vocabulary` nor well-known module/builtin roots, and are not bound
+  inside the expression (comprehension variables, lambda parameters).  An expression without aliens is a *closed term*
+  over the vocabulary: when it differs from the expected form it is a recognised different computation; with aliens its
+  meaning is not known (a helper, a table entry, an unresolved local)."""
+  allowed = set(vocabulary) | _BUILTIN_ROOTS
+  bound = set()
+  for sub in ast.walk(expr):
+    if isinstance(sub, (ast.GeneratorExp, ast.ListComp, ast.SetComp, ast.DictComp)):
+      for gen in sub.generators:
+        bound |= {x.id for x in ast.walk(gen.target) if isinstance(x, ast.Name)}
+    if isinstance(sub, ast.Lambda):
+      bound |= {a.arg for a in sub.args.args}
+  out = []
+  for sub in ast.walk(expr):
+    if isinstance(sub, ast.Name) and isinstance(sub.ctx, ast.Load) and sub.id not in allowed and sub.id not in bound and sub.id not in out:
+      out.append(sub.id)
+    # with `fields` given, only those attributes of self are known quantities; any other field is an unresolved one
+    if fields is not None and isinstance(sub, ast.Attribute) and isinstance(sub.value, ast.Name) and sub.value.id == 'self' and sub.attr not in fields \
+        and ('self.' + sub.attr) not in out:
+      out.append('self.' + sub.attr)
+  return out
+
+
+def verdict_text(ok, expr, vocabulary=()):
+  """Three-valued verdict for a pattern rule: True when the pattern matched; otherwise False if `expr` is a closed term
+  over the vocabulary (a recognised different computation) and None if it still reads unresolved names."""
+  if ok:
+    return True, []
+  al = aliens(expr, vocabulary)
+  return (None if al else False), al
+
+
+def alternatives(rd, node, expr, keep=(), depth=12):
+  """Expanded value(s) of `expr` at `node`: one per reaching definition when it is a bare local with several plain
+  assignments (`u = inf` on one branch, `u = q(...)` on the other), else the single expansion."""
+  if isinstance(expr, ast.Name):
+    ds = rd.defs_at(node, expr.id)
+    if len(ds) > 1 and all(d.how == 'assign' and d.value is not None for d in ds):
+      return [rd.expand(d.node, d.value, depth=depth, keep=keep)[0] for d in sorted(ds, key=lambda d_: d_.node.id)]
+  return [rd.expand(node, expr, depth=depth, keep=keep)[0]]
